@@ -11,7 +11,7 @@ CLAIMED = {
    ref="6 C01", note="Trusted: the hand-transcribed operator table (spec/Ops.tla + BigInt/Float/Decimal/Time arithmetic, self-checked by MC_BigInt), TLC, the projection harness/src/model.rs (round-trip self-tested). Pools are finite: values outside spec/Pools.tla are reached only by the random trace tier."),
  "C02": dict(technique="TLA+ operator-table spec model-checked for internal consistency by TLC; every cell replayed into reval with value-level comparison",
    text="Same enumeration as C01 with value-level comparison against the table, plus TLC invariants that check the table against algebraic identities (commutativity, a-b=a+(-b), (a/b)*b+a%b=a, floor/fract/round laws, constructor/extractor inverses, calendar recomposition) so transcription slips do not enter the oracle.",
-   ref="6 C02", note="Trusted: Ops.tla as oracle; Float results are the IEEE-754 correctly rounded exact results computed on BigInt triples; tolerances only as listed in DESIGN 4.4."),
+   ref="6 C02", note="Trusted: Ops.tla as oracle; Float results are the IEEE-754 correctly rounded exact results computed on BigInt triples; tolerances only as listed in DESIGN 4.4 / 13.2. dec(Float), dec(String) and datetime(String) follow step-for-step transcriptions of the library conversions (Decimal.tla Base2ToDecimal / DecFromStr, Ops.tla ParseDateStr), each validated against the code on 10^5 .. 10^6 inputs."),
  "C03": dict(technique="TLA+ signature table (Sig) vs case analysis checked by TLC; all type-pair cells replayed into reval",
    text="TLC checks the operator case analysis against the independently written declarative signature table for every kind x ordered pair of the ten types x >=3 values per type (including the coincide-after-coercion family) and the harness replays every cell: an unsupported combination must be InvalidType, a supported one must not, equality across types must be false.",
    ref="6 C03", note="Trusted: Sig table and Ops.tla written independently from the property text; exhaustive over the 27-value coincidence pool (quick) plus the boundary pool (thorough)."),
@@ -20,7 +20,7 @@ CLAIMED = {
    ref="6 C04", note="Trusted: NoneRule tables in Ops.tla; exhaustive over kinds x positions x pool."),
  "C05": dict(technique="TLA+ small-step evaluator machine checked by TLC to refine the denotation (order, laziness, exactly-once); every behaviour replayed into reval with logging user functions",
    text="TLC runs the step machine of spec/Eval.tla on every expression tree with at most L probe leaves (non-cacheable logging user functions) for every assignment of true/false/None/Int/failure, checking at every step that the invocation log stays a prefix of the denotation's log and at completion that outcome and log equal the denotation's; every behaviour (program, assignment, prescribed outcome, prescribed exact invocation sequence) is replayed through the public API and compared.",
-   ref="6 C05", note="Trusted: Den in spec/Eval.tla as the statement of the evaluation order; harness ModelFn logs at call entry. L = 3 (quick) / 4 (thorough) leaves; deeper trees only by the random tier."),
+   ref="6 C05", note="Trusted: Den in spec/Eval.tla as the statement of the evaluation order; harness ModelFn logs at call entry. L = 3 (quick) / 4 (thorough) leaves, plus four-operand and/or chains and an else-if ladder; the same expression in several rules of one ruleset (MC_C09, full invocation log); deeper trees by the random tier."),
  "C09": dict(technique="TLA+ ruleset state machine (RuleSet.tla) model-checked by TLC; every enumerated ruleset x input x failure pattern replayed through ruleset()..build().evaluate_value",
    text="TLC enumerates every ruleset of at most MaxRules rules over a pool of rule shapes covering each error class and user-function calls, x inputs x failure patterns, and checks one outcome per rule, in order, each equal to the rule evaluated alone with an empty cache; every case is replayed and compared on length, order, the rule carried by each outcome (name and equality with the i-th rule added) and value.",
    ref="6 C09", note="Trusted: RuleSet.tla / Eval.tla; user functions deterministic as the property stipulates. evaluate(&T) vs evaluate_value(serialized T) is covered under C13."),
@@ -29,25 +29,25 @@ CLAIMED = {
    ref="6 C10", note="Trusted: Resolve in spec/MC_Path.tla as the reading of the property; exhaustive over the stated inputs and paths."),
  "C11": dict(technique="TLA+ ruleset state machine with per-evaluation cache, counter-valued functions; cache invariants model-checked by TLC; every history replayed into reval comparing the full invocation log",
    text="User functions return [argument, ordinal], so every cache decision is observable. TLC checks at-most-once per (evaluation, function, argument), hits see the first result, entries keyed by function and argument, failures not cached, non-cacheable always invoked, fresh cache per evaluation, error names the function; every history (calls spread over rules in every way, consecutive evaluations) is replayed and the exact invocation log and outcomes compared.",
-   ref="6 C11", note="Trusted: RuleSet.tla; argument identity is representation identity (d1 vs d1.0 and -0.0 vs 0.0 are left out of the argument pool on purpose)."),
+   ref="6 C11", note="Trusted: RuleSet.tla; argument identity is identity of the value as written (0.0 / -0.0 and d1.0 / d1.00 are different arguments, NaN is one). Besides the exhaustive universe: one long history (300 .. 2200 distinct arguments and long arguments differing at their far end) under the same invariants, and every poll interleaving of two overlapping evaluations."),
  "C12": dict(technique="TLA+ ruleset state machine with Poll/Step/Drop actions model-checked by TLC over all interleavings; every poll-granular behaviour replayed with a hand-rolled executor",
    text="TLC explores every interleaving of polls (and, model only, of machine micro-steps) of several evaluations of one ruleset whose user functions suspend 0..K times, with drops at every point, checking outcomes = function of (ruleset, input), ruleset and inputs unchanged, no cache leak, termination under fairness; every poll-granular behaviour is replayed on real futures with a noop waker: Pending/Ready and the log length after every poll, final outcomes, full log.",
-   ref="6 C12", note="Trusted: PollEval in RuleSet.tla as the model of one poll; ModelFn suspends by returning Pending exactly `suspend` times."),
+   ref="6 C12", note="Trusted: PollEval in RuleSet.tla as the model of one poll; ModelFn suspends by returning Pending exactly `suspend` times (0..2 in the interleaving universes, 70 / 300 in the long-suspension run)."),
  "C15": dict(technique="TLA+ builder state machine model-checked by TLC over all call sequences; every sequence and every candidate function name replayed through the real builder with probe rules",
    text="TLC checks after every builder call: names pairwise distinct, accepted = exactly the successful calls in order, accepted function names well-formed and not reserved, refusals name the offender; every sequence (and each of 75 candidate function names) is replayed on the real builder, then probe rules show exactly which functions and symbols the built ruleset holds.",
-   ref="6 C15", note="Trusted: WellFormed over the modelled code-point table (XID classes written out for the modelled alphabet) and the reserved-word list in RuleSet.tla."),
+   ref="6 C15", note="Trusted: WellFormed over the modelled code-point table (XID classes written out for the modelled alphabet) and the reserved-word list in RuleSet.tla. Besides all short call sequences: long histories (14 / 45 names added almost in order and re-added, batches of 3n symbol entries with overrides)."),
  "C06": dict(technique="TLA+ lexer + grammar + rule-text spec (Lexer/Grammar/RuleText.tla) evaluated by TLC over token- and character-level universes; every text replayed into Expr::parse and Rule::parse under catch_unwind",
    text="TLC enumerates every viable-prefix token sequence up to length N, every string up to length N over a 30-character alphabet that hits every lexer transition, and the literal families with out-of-range numerals in every numeric position and every escape form; the spec's own lexer and reference parser decide accept/reject for each; every text is given to Expr::parse and Rule::parse under catch_unwind and compared (a panic never matches).",
-   ref="6 C06", note="Trusted: the token and grammar tables transcribed in Lexer.tla / Grammar.tla (DESIGN appendix B). Bounded lengths; longer and random texts only in the random tier."),
+   ref="6 C06", note="Trusted: the token and grammar tables transcribed in Lexer.tla / Grammar.tla (DESIGN appendix B). Bounded lengths for the exhaustive part; a scale family (N parenthesised atoms, 60-deep nesting, N-operand chains, N-step paths, N-element lists and maps, N-character names and strings with a character boundary miss at every byte offset; N = 40, 300, 1100) and random texts beyond."),
  "C07": dict(technique="TLA+ precedence table as data with a reference parser (Grammar.tla); TLC enumerates every viable-prefix token sequence; accept/reject and tree compared with reval's parser",
    text="The precedence/associativity table is data in Grammar.tla and drives a reference recursive-descent parser with the correct-prefix property. TLC enumerates every token sequence up to length N over one representative per token class (and the full alphabet at smaller N), accepted and rejected alike; the harness compares accept/reject and the exact tree, so swapping two levels, flipping an associativity, allowing a chain of contains, or changing a spelling's node flips at least one enumerated sequence.",
-   ref="6 C07", note="Trusted: Grammar.tla as the reading of the property's table. N = 5 (quick) / 6 (thorough) tokens."),
+   ref="6 C07", note="Trusted: Grammar.tla as the reading of the property's table. N = 5 (quick) / 6 (thorough) tokens exhaustively; operator-pair templates over every spelling; a scale family of long and deep texts (N = 40, 300, 1100)."),
  "C08": dict(technique="TLA+ lexer with literal denotations on exact arithmetic (Lexer.tla) evaluated by TLC over literal families, keyword-collision words and layout interleavings; values compared exactly with reval's parser",
-   text="Literal denotations are computed by the spec on exact arithmetic (positional value in four radices with BigInt; floats as the IEEE-754 nearest double of the decimal rational, ties to even; decimals with scale kept and half-even rounding only beyond 28 digits; the escape table) and compared exactly with what the code parses (floats bitwise, decimals with scale). TLC also enumerates all words up to length N over the keyword-prefix collision alphabet (longest match) and every assignment of 6-10 separators (blanks, tabs, newlines, CRLF, NBSP, comments, nothing) to base token sequences, checking on the spec that layout never changes the tokens.",
-   ref="6 C08", note="Trusted: Lexer.tla token classes and Denote; Float.tla rounding. Families are finite samples of the literal space (boundaries, halfway cases, subnormals)."),
+   text="Literal denotations are computed by the spec on exact arithmetic (positional value in four radices with BigInt; floats as the IEEE-754 nearest double of the decimal rational, ties to even; decimals by a step-for-step transcription of the library's text reader: scale kept, and where digits are dropped - beyond 28 fractional digits or 96 bits - within one unit of the last place; the escape table) and compared exactly with what the code parses (floats bitwise, decimals with scale). TLC also enumerates all words up to length N over the keyword-prefix collision alphabet (longest match) and every assignment of 6-10 separators (blanks, tabs, newlines, CRLF, NBSP, comments, nothing) to base token sequences, checking on the spec that layout never changes the tokens.",
+   ref="6 C08", note="Trusted: Lexer.tla token classes and Denote; Float.tla rounding. Families are finite samples of the literal space (boundaries, halfway cases, subnormals, the thresholds of the decimal reader) plus a scale family of long texts (N = 40, 300, 1100)."),
  "C14": dict(technique="TLA+ rule-text reader (RuleText.tla) checked by TLC against an independent restatement of the extraction rules; every assembled text replayed into Rule::parse",
    text="TLC assembles every text of at most N lines from a pool of line kinds with LF / CRLF endings and checks the spec's reader against the property restated directly (expression = what the text after the @-prefix parses to; one entry per key, last occurrence; name/description precedence; missing name only without comment lines); each text goes to Rule::parse and name(), description(), iter_metadata(), get_metadata(), expr() or the error class are compared.",
-   ref="6 C14", note="Trusted: RuleText.tla. Modelling bound (DESIGN 6 C14): comment-looking lines inside multi-line string literals and lone-CR line breaks are not generated."),
+   ref="6 C14", note="Trusted: RuleText.tla. Line kinds include comment-looking lines inside multi-line string literals, strings ending in an escaped backslash and comments holding a lone quote; lone-CR line breaks only inside string constants."),
  "C16": dict(technique="TLA+ printer + lexer + grammar: round trip model-checked by TLC on the spec; every tree printed and re-parsed by reval; the printed texts validated by TLC as a trace against the spec's lexer and grammar",
    text="TLC enumerates the trees of the parser's image (every kind in every child position of every other kind, literal leaves from the literal families) and checks on the specification that printing then parsing is the identity; the harness prints every tree with the code's Display, parses the text back with the code and compares; the recorded (tree, text) pairs are then validated by TLC: the specification's lexer and grammar must read each printed text as exactly that tree (so grouping, operators, literal values and string contents are all pinned).",
    ref="6 C16", note="Trusted: Lexer.tla / Grammar.tla as the reading of valid rule syntax. 'Evaluates identically' follows from tree equality and determinism (C12)."),
